@@ -804,7 +804,10 @@ fn expand_set_assertion(value_expr: &TokenStream, pattern: &PatternSet) -> Token
 
     quote! {
         {
-            let __set_coll: ::std::vec::Vec<_> = (&(#value_expr)).into_iter().collect();
+            // Bind the source first so that a by-value result (a method call, a function
+            // call) lives as long as the references collected from it.
+            let __set_src = &(#value_expr);
+            let __set_coll: ::std::vec::Vec<_> = __set_src.into_iter().collect();
             #(#pred_defs)*
             let __set_preds: &[&dyn ::std::ops::Fn(usize) -> bool] = &[#(&#pred_names),*];
             ::assert_struct::__macro_support::set_match(
